@@ -44,6 +44,8 @@ Inductive label :=
 | LApi (id : N) (a : api)
 | LStart (pid id : N)
 | LStep (pid id tag : N) (bh : bres) (ext : bool)
+| LStepH (pid id tag : N) (bh : bres) (ext : bool)   (* as LStep, but the executor's FinishTask call is still on its way *)
+| LFinish (pid id e : N)                             (* that FinishTask reaches the manager (e: 0 nil 1 paused 2 cancel 3 net 4 cmd 5 other) *)
 | LClose (sp id tag : N)
 | LSub (sent : bool) (sp id tag code nblk : N).
 
@@ -77,9 +79,9 @@ Record exec := { x_pid : N; x_tag : N; x_prepause : bool; x_next : N; x_status :
 Record slot := { sl_ent : option entry; sl_execs : list exec; sl_tq : list (N * tstate) }.
 Definition empty_slot : slot := {| sl_ent := None; sl_execs := []; sl_tq := [] |}.
 
-Record cfg := { c_cancel : bool; c_update : bool; c_new : bool; c_notif : bool }.
-Definition fixed : cfg := {| c_cancel := true; c_update := true; c_new := true; c_notif := true |}.
-Definition unfixed : cfg := {| c_cancel := false; c_update := false; c_new := false; c_notif := false |}.
+Record cfg := { c_cancel : bool; c_update : bool; c_new : bool; c_notif : bool; c_task : bool }.
+Definition fixed : cfg := {| c_cancel := true; c_update := true; c_new := true; c_notif := true; c_task := true |}.
+Definition unfixed : cfg := {| c_cancel := false; c_update := false; c_new := false; c_notif := false; c_task := false |}.
 
 (* ---- small helpers ---- *)
 Definition b2n (b : bool) : N := if b then 1 else 0.
@@ -256,36 +258,46 @@ Fixpoint run_updates (pid tag : N) (us : list upd) (next : N) : list sout * N * 
       end
   end.
 
-(* server.go finishTask, preceded by executeQuery's closing transaction *)
-Definition finish (x : exec) (closed : bool) (speer : N) (err : option errk) (sl : slot) : slot * list sout :=
+(* server.go finishTask; with c_task a finished task only concerns its own peer's response *)
+Definition finish_task (c : cfg) (pid : N) (err : option errk) (sl : slot) : slot * list sout :=
+  let sl1 := set_tq sl (tq_done pid (sl_tq sl)) in
+  let o1 := [SDone pid] in
+  match sl_ent sl1 with
+  | None => (sl1, o1)
+  | Some en =>
+      if c_task c && negb (e_peer en =? pid) then (sl1, o1) else
+      if e_neterr en && negb (match err with Some ECancel => true | _ => false end)
+      then let '(sl2, o2) := terminate sl1 in (sl2, o1 ++ o2) else
+      match err with
+      | Some EPaused => (set_ent sl1 (Some (with_state en Paused)), o1)
+      | Some ECancel => let '(sl2, o2) := terminate sl1 in (sl2, o1 ++ [SCancelled pid (e_tag en)] ++ o2)
+      | Some ENet => let '(sl2, o2) := terminate sl1 in (sl2, o1 ++ o2)
+      | _ => (set_ent sl1 (Some (with_state en Completing)), o1)
+      end
+  end.
+
+(* executeQuery's closing transaction, then FinishTask - unless that call is held on its way (hold) *)
+Definition finish (c : cfg) (hold : bool) (x : exec) (closed : bool) (speer : N) (err : option errk) (sl : slot) : slot * list sout :=
   let final := match err with
                | Some EPaused | Some ENet | Some ECancel => []
                | None => mk_msg closed speer 0 0 20
                | Some ECmd => mk_msg closed speer 0 0 35
                | Some EHook => mk_msg closed speer 0 0 32
                end in
-  let sl1 := set_tq sl (tq_done (x_pid x) (sl_tq sl)) in
-  let o1 := final ++ [SDone (x_pid x)] in
-  match sl_ent sl1 with
-  | None => (sl1, o1)
-  | Some en =>
-      if e_neterr en && negb (match err with Some ECancel => true | _ => false end)
-      then let '(sl2, o2) := terminate sl1 in (sl2, o1 ++ o2) else
-      match err with
-      | Some EPaused => (set_ent sl1 (Some (with_state en Paused)), o1)
-      | Some ECancel => let '(sl2, o2) := terminate sl1 in (sl2, o1 ++ [SCancelled (x_pid x) (e_tag en)] ++ o2)
-      | Some ENet => let '(sl2, o2) := terminate sl1 in (sl2, o1 ++ o2)
-      | _ => (set_ent sl1 (Some (with_state en Completing)), o1)
-      end
-  end.
+  if hold then (sl, final) else
+  let '(sl1, o1) := finish_task c (x_pid x) err sl in (sl1, final ++ o1).
+
+Definition err_of_code (e : N) : option errk :=
+  if e =? 0 then None else if e =? 1 then Some EPaused else if e =? 2 then Some ECancel
+  else if e =? 3 then Some ENet else if e =? 4 then Some ECmd else Some EHook.
 
 (* top of runTraversal's loop for executor x (not in sl_execs): complete, or open the next block's
    transaction, checkForUpdates, SendResponse, block hook (park) *)
-Definition exec_begin (x : exec) (sl : slot) : slot * list sout :=
+Definition exec_begin (c : cfg) (hold : bool) (x : exec) (sl : slot) : slot * list sout :=
   match my_entry x sl with
   | None => (sl, [SUnmodelled])
   | Some en =>
-      if e_left en =? 0 then finish x (e_closed en) (e_peer en) None sl
+      if e_left en =? 0 then finish c hold x (e_closed en) (e_peer en) None sl
       else
         let nsig := b2n (e_pause en) + b2n (e_upd en) + match e_err en with Some _ => 1 | None => 0 end in
         let amb := if 2 <=? nsig then [SAmbig] else [] in
@@ -296,7 +308,7 @@ Definition exec_begin (x : exec) (sl : slot) : slot * list sout :=
         else match e_err en with
         | Some e =>
             let sl1 := set_ent sl (Some (with_sigs en (e_pause en) (e_upd en) None)) in
-            let '(sl2, o2) := finish x (e_closed en) (e_peer en) (Some e) sl1 in
+            let '(sl2, o2) := finish c hold x (e_closed en) (e_peer en) (Some e) sl1 in
             (sl2, amb ++ mk_msg (e_closed en) (e_peer en) 0 0 0 ++ o2)
         | None =>
             if e_upd en then
@@ -305,7 +317,7 @@ Definition exec_begin (x : exec) (sl : slot) : slot * list sout :=
               let en1 := with_updates (with_sigs en (e_pause en) false (e_err en)) [] in
               let sl1 := set_ent sl (Some en1) in
               if err then
-                let '(sl2, o2) := finish x (e_closed en) (e_peer en) (Some EHook) sl1 in
+                let '(sl2, o2) := finish c hold x (e_closed en) (e_peer en) (Some EHook) sl1 in
                 (sl2, amb ++ oh ++ mk_msg (e_closed en) (e_peer en) next 0 0 ++ o2)
               else
                 (set_execs sl1 ({| x_pid := x_pid x; x_tag := x_tag x; x_prepause := false; x_next := next; x_status := 0 |} :: sl_execs sl1),
@@ -317,18 +329,18 @@ Definition exec_begin (x : exec) (sl : slot) : slot * list sout :=
   end.
 
 (* server.go startTask / taskDataForKey, then the executor up to its first park *)
-Definition h_start (pid : N) (sl : slot) : slot * list sout :=
+Definition h_start (c : cfg) (pid : N) (sl : slot) : slot * list sout :=
   match aget pid (sl_tq sl) with
   | Some TPending =>
       let sl0 := set_tq sl (aput pid TActive (sl_tq sl)) in
       match sl_ent sl0 with
       | None => (set_tq sl0 (tq_done pid (sl_tq sl0)), [SDone pid])
       | Some en =>
-          if is_completing en then (set_tq sl0 (tq_done pid (sl_tq sl0)), [SDone pid])
+          if is_completing en || (c_task c && negb (e_peer en =? pid)) then (set_tq sl0 (tq_done pid (sl_tq sl0)), [SDone pid])
           else
             let o := if e_started en then [] else [SProcessing (e_peer en) (e_tag en)] in
             let sl1 := set_ent sl0 (Some (with_started en)) in
-            let '(sl2, o2) := exec_begin {| x_pid := pid; x_tag := e_tag en; x_prepause := false; x_next := 0; x_status := 0 |} sl1 in
+            let '(sl2, o2) := exec_begin c false {| x_pid := pid; x_tag := e_tag en; x_prepause := false; x_next := 0; x_status := 0 |} sl1 in
             (sl2, o ++ o2)
       end
   | _ => (sl, [SUnmodelled])
@@ -342,7 +354,7 @@ Fixpoint take_exec (pid tag : N) (xs : list exec) : option (exec * list exec) :=
   end.
 
 (* the block hook of a parked executor returns: end of the block's transaction, then on *)
-Definition h_step (pid tag : N) (bh : bres) (ext : bool) (sl : slot) : slot * list sout :=
+Definition h_step (c : cfg) (hold : bool) (pid tag : N) (bh : bres) (ext : bool) (sl : slot) : slot * list sout :=
   match take_exec pid tag (sl_execs sl) with
   | None => (sl, [SUnmodelled])
   | Some (x, rest) =>
@@ -360,8 +372,8 @@ Definition h_step (pid tag : N) (bh : bres) (ext : bool) (sl : slot) : slot * li
                      | BNone => if x_prepause x then Some EPaused else None
                      end in
           match err with
-          | None => let '(sl2, o2) := exec_begin x sl1 in (sl2, m ++ o2)
-          | Some e => let '(sl2, o2) := finish x (e_closed en) (e_peer en) (Some e) sl1 in (sl2, m ++ o2)
+          | None => let '(sl2, o2) := exec_begin c hold x sl1 in (sl2, m ++ o2)
+          | Some e => let '(sl2, o2) := finish c hold x (e_closed en) (e_peer en) (Some e) sl1 in (sl2, m ++ o2)
           end
       end
   end.
@@ -403,8 +415,10 @@ Definition sstep (c : cfg) (X : N) (l : label) (sl : slot) : slot * list sout :=
   match l with
   | LMsg p rs => h_reqs c p (filter (fun r => req_id r =? X) rs) sl
   | LApi id a => if id =? X then h_api a sl else (sl, [])
-  | LStart pid id => if id =? X then h_start pid sl else (sl, [])
-  | LStep pid id tag bh ext => if id =? X then h_step pid tag bh ext sl else (sl, [])
+  | LStart pid id => if id =? X then h_start c pid sl else (sl, [])
+  | LStep pid id tag bh ext => if id =? X then h_step c false pid tag bh ext sl else (sl, [])
+  | LStepH pid id tag bh ext => if id =? X then h_step c true pid tag bh ext sl else (sl, [])
+  | LFinish pid id e => if id =? X then finish_task c pid (err_of_code e) sl else (sl, [])
   | LClose sp id tag => if id =? X then h_close sp tag sl else (sl, [])
   | LSub sent sp id tag code nblk => if id =? X then h_sub c sent sp tag code nblk sl else (sl, [])
   end.
@@ -426,8 +440,10 @@ Definition step (c : cfg) (s : state) (l : label) : state * list (N * sout) :=
   match l with
   | LMsg p rs => g_reqs c p rs s
   | LApi id a => on_slot id (h_api a) s
-  | LStart pid id => on_slot id (h_start pid) s
-  | LStep pid id tag bh ext => on_slot id (h_step pid tag bh ext) s
+  | LStart pid id => on_slot id (h_start c pid) s
+  | LStep pid id tag bh ext => on_slot id (h_step c false pid tag bh ext) s
+  | LStepH pid id tag bh ext => on_slot id (h_step c true pid tag bh ext) s
+  | LFinish pid id e => on_slot id (finish_task c pid (err_of_code e)) s
   | LClose sp id tag => on_slot id (h_close sp tag) s
   | LSub sent sp id tag code nblk => on_slot id (h_sub c sent sp tag code nblk) s
   end.
@@ -579,6 +595,8 @@ Definition mentions (X : N) (l : label) : bool :=
   | LApi id _ => id =? X
   | LStart _ id => id =? X
   | LStep _ id _ _ _ => id =? X
+  | LStepH _ id _ _ _ => id =? X
+  | LFinish _ id _ => id =? X
   | LClose _ id _ => id =? X
   | LSub _ _ id _ _ _ => id =? X
   end.
@@ -590,6 +608,16 @@ Definition foreign (p : N) (l : label) : bool :=
   | LMsg q _ => negb (q =? p)
   | LClose sp _ _ => negb (sp =? p)
   | LSub _ sp _ _ _ _ => negb (sp =? p)
+  | _ => false
+  end.
+
+(* for the run-time monitor, what another peer's leftover task does is foreign as well: a task start,
+   an executor step or a FinishTask under that peer's name (the table is keyed by id, the task queue by
+   peer and id).  The theorems below are stated for [foreign]; see design.d/C10.md. *)
+Definition mforeign (p : N) (l : label) : bool :=
+  foreign p l ||
+  match l with
+  | LStart pid _ | LStep pid _ _ _ _ | LStepH pid _ _ _ _ | LFinish pid _ _ => negb (pid =? p)
   | _ => false
   end.
 
@@ -612,15 +640,17 @@ Definition enc_label (l : label) : list N :=
   | LApi id a => [2; id] ++ match a with APause => [0] | AUnpause e => [1; bn e] | ACancel => [2] | AUpdate => [3] end
   | LStart pid id => [3; pid; id]
   | LStep pid id tag bh ext => [4; pid; id; tag; enc_bres bh; bn ext]
+  | LStepH pid id tag bh ext => [7; pid; id; tag; enc_bres bh; bn ext]
+  | LFinish pid id e => [8; pid; id; e]
   | LClose sp id tag => [5; sp; id; tag]
   | LSub sent sp id tag code nblk => [6; bn sent; sp; id; tag; code; nblk]
   end.
 
 (* what an observation shows of request id X *)
-Definition view (X : N) (o : obs) : list (list N) :=
+Definition view (p X : N) (o : obs) : list (list N) :=
   map enc_row (filter (fun r => r_id r =? X) (o_rows o)) ++ [[99]] ++
-  map (fun t => [fst (snd t); enc_ts (snd (snd t))]) (filter (fun t => fst t =? X) (o_tq o)) ++ [[99]] ++
-  map (fun x => [fst (snd x); snd (snd x)]) (filter (fun x => fst x =? X) (o_execs o)).
+  map (fun t => [fst (snd t); enc_ts (snd (snd t))]) (filter (fun t => (fst t =? X) && (fst (snd t) =? p)) (o_tq o)) ++ [[99]] ++
+  map (fun x => [fst (snd x); snd (snd x)]) (filter (fun x => (fst x =? X) && (fst (snd x) =? p)) (o_execs o)).
 Definition outs_of (X : N) (o : obs) : list (list N) :=
   map (fun io => enc_sout (snd io)) (filter (fun io => fst io =? X) (o_outs o)).
 Definition owned (p X : N) (o : obs) : bool := existsb (fun r => (r_id r =? X) && (r_peer r =? p)) (o_rows o).
@@ -642,8 +672,8 @@ Fixpoint life (p X : N) (mine : bool) (hs : list (label * obs)) : list (list N *
   | [] => []
   | (l, o) :: r =>
       if negb (mentions X l) then life p X mine r
-      else if foreign p l then (if mine then life p X mine r else [])
-      else (enc_label (restrict X l), outs_of X o, view X o) ::
+      else if mforeign p l then (if mine then life p X mine r else [])
+      else (enc_label (restrict X l), outs_of X o, view p X o) ::
            (if owned p X o && negb (racy X o) then life p X true r else [])
   end.
 
@@ -679,7 +709,7 @@ Record rcase := mk_rcase { rc_full : list (label * obs); rc_twin : list (label *
 Definition ids_of (hs : list (label * obs)) : list N :=
   nodup N.eq_dec (flat_map (fun lo => match fst lo with
                                       | LMsg _ rs => map req_id rs
-                                      | LApi id _ => [id] | LStart _ id => [id] | LStep _ id _ _ _ => [id]
+                                      | LApi id _ => [id] | LStart _ id => [id] | LStep _ id _ _ _ => [id] | LStepH _ id _ _ _ => [id] | LFinish _ id _ => [id]
                                       | LClose _ id _ => [id] | LSub _ _ id _ _ _ => [id]
                                       end) hs).
 
